@@ -320,11 +320,16 @@ def run_views(ctx, n):
     rng = ctx.rng
     tz = DateTimeZoneProviders.tzdb; ids = list(tz.ids)
     cals = gen.calendars()
-    for _ in range(n):
+    from pyoda_time import DateTimeZone, Offset
+    for it in range(n):
         z = tz[rng.choice(ids)]; cal = rng.choice(cals); lo, hi = gen.cal_range(cal.id)
+        if it % 4 == 1:      # the fixed zones: the UTC singleton, the provider's "UTC", arbitrary fixed offsets
+            z = rng.choice([DateTimeZone.utc, tz["UTC"], DateTimeZone.for_offset(Offset.from_seconds(rng.choice([0, 3600, -16200, rng.randint(-64800, 64800)])))])
         nsv = rng.randint(max(gen.INST_MIN_NS, (lo + 2) * DAY), min(gen.INST_MAX_NS, (hi - 2) * DAY))
         fc = FakeClock(gen.ns_inst(nsv), Duration.zero)
-        zc = ZonedClock(fc, z, cal)
+        zc = ZonedClock(fc, z, cal) if it % 3 else fc.in_zone(z, cal)
+        if it % 16 == 5:
+            z = DateTimeZone.utc; cal = gen.ISO; zc = fc.in_utc()
         i = gen.ns_inst(nsv); exp = i.in_zone(z, cal)
         case = {"kind": "view", "zone": z.id, "cal": cal.id, "ns": nsv}
         ctx.ev(); ctx.counters["zoned_views"] += 1; ctx.key(("view", cal.id))
@@ -396,6 +401,22 @@ def run_views(ctx, n):
         if fin != t0 + k * step:
             ctx.V("C19:zoned-clock-reads-per-call", f"after {k} ZonedClock getter calls the wrapped clock (auto-advance {step} ns) stands at {fin}; one read per call gives {t0 + k * step}", {"kind": "view", "zone": z.id, "auto_advance": step}, fin, t0 + k * step)
     sc = SystemClock.instance
+    # the operating-system time under our control: whatever time.time_ns() says (also before 1970, also off the 100 ns tick grid) is reported exactly
+    real_time_ns = time.time_ns
+    try:
+        for v in [0, 1, -1, 99, 100, 101, -99, -100, -101, -1234567891, 10**18 + 55, -(10**18) - 55, 2**62 + 1] + [rng.randint(-4 * 10**18, 8 * 10**18) for _ in range(300)]:
+            time.time_ns = lambda v=v: v
+            try:
+                got = gen.inst_ns(sc.get_current_instant())
+            except Exception as e:  # noqa: BLE001
+                ctx.exc(e); got = repr(e)
+            finally:
+                time.time_ns = real_time_ns
+            ctx.ev(); ctx.counters["system_clock_controlled"] += 1; ctx.key(("system-clock-controlled", (v > 0) - (v < 0), v % 100 == 0))
+            if got != v:
+                ctx.V("C19:system-clock-controlled", f"with the operating-system time at {v} ns since the Unix epoch SystemClock reported {got}", {"kind": "sys", "a": v, "v": got, "b": v}, got, v)
+    finally:
+        time.time_ns = real_time_ns
     for _ in range(2000 if ctx.tier == "quick" else 20000):
         a = time.time_ns(); v = gen.inst_ns(sc.get_current_instant()); b = time.time_ns()
         ctx.counters["system_clock_brackets"] += 1
